@@ -22,7 +22,7 @@ RULE = (
     "Scalar(1,u,c) builds for every unit and category of its type and holds the category as registered now, as does the "
     "unit-only form ObtainQuantity(u), CheckCategoryUnit of every (category name, unit symbol) of the pools - registered "
     "or not yet - agrees with the model after every step; a rejected call leaves the full snapshot identical. "
-    "(c) static sweep of the three shipped databases with the same invariants. Non-trivial = history with a rejection, "
+    "(c) static sweep of the three shipped databases with the same invariants. Unit symbols include two that merely contain a legacy fragment (lbmole(lab), 1000m3(st)). Non-trivial = history with a rejection, "
     "an override or a unit registered before its base; key = the history."
 )
 ASSUMPTIONS = [
@@ -459,7 +459,9 @@ def static_sweep(ctx, kind):
 
 def gen_op():
     qts = st.sampled_from(["L", "T", "M"])
-    syms = st.sampled_from(["m", "cm", "km", "s", "min", "kg", "lbmol", "g"])
+    # (the last two are symbols of their own that merely contain a legacy fragment: registered as written, they are
+    # units like any other)
+    syms = st.sampled_from(["m", "cm", "km", "s", "min", "kg", "lbmol", "g", "m", "cm", "s", "lbmole(lab)", "1000m3(st)"])
     forms = st.sampled_from([("%f*100.0", "%f/100.0"), ("@k1", "@k2"), ("x/60.0", "x*60.0"), ("%f", "%f"), ("%f*", "%f"), ("2.0", "%f"), ("%s - 273.15", "%s + 273.15")])
     cats = st.sampled_from(["L", "T", "depth", "x", "y", "M"])
     legacy_or_sym = st.one_of(syms, st.just("lbmole"))
